@@ -57,16 +57,26 @@ func propagateMatchers(binOp *parser.BinaryExpr) {
 		return
 	}
 
-	lhMatchers := toMatcherMap(lhSelector)
-	rhMatchers := toMatcherMap(rhSelector)
-	union, hasDuplicates := makeUnion(lhMatchers, rhMatchers)
-	if hasDuplicates {
-		return
-	}
+	// Matching series have the same labels apart from the metric name, so a matcher
+	// on any other label of one side can be applied to the other side as well.
+	// Each side keeps all of its own matchers.
+	lhMatchers, rhMatchers := lhSelector.LabelMatchers, rhSelector.LabelMatchers
+	lhSelector.LabelMatchers = addMissingMatchers(lhMatchers, rhMatchers)
+	rhSelector.LabelMatchers = addMissingMatchers(rhMatchers, lhMatchers)
+}
 
-	finalMatchers := toSlice(union)
-	lhSelector.LabelMatchers = finalMatchers
-	rhSelector.LabelMatchers = finalMatchers
+// addMissingMatchers returns matchers followed by those matchers of other which
+// are not on the metric name and are not among matchers already.
+func addMissingMatchers(matchers []*labels.Matcher, other []*labels.Matcher) []*labels.Matcher {
+	result := make([]*labels.Matcher, 0, len(matchers)+len(other))
+	result = append(result, matchers...)
+	for _, m := range other {
+		if m.Name == labels.MetricName || containsMatcher(matchers, m) {
+			continue
+		}
+		result = append(result, m)
+	}
+	return result
 }
 
 func toSlice(union map[string]*labels.Matcher) []*labels.Matcher {
